@@ -17,7 +17,7 @@ pub struct ScriptCase {
     pub new: Vec<u32>,
     /// a valid edit script old -> new made of Equal/Delete/Insert calls with exact indices
     pub script: Vec<SOp>,
-    /// 0 Compact<Capture>, 1 Replace<Capture>, 2 Compact<Replace<Capture>>
+    /// 0 Compact<Capture>, 1 Replace<Capture>, 2 Compact<Replace<Capture>>, 3 Replace<Compact<Capture>>
     pub stack: u8,
 }
 
@@ -123,7 +123,7 @@ pub fn check_case(c: &ScriptCase, obs: &mut Obs) -> Verdict {
     let eq = |i: usize, j: usize| old[i] == new[j];
     let input_ops: Vec<DiffOp> = c.script.iter().map(|s| s.to_op()).collect();
     let (d0, i0, _) = ops_cost(&input_ops);
-    let stack = c.stack % 3;
+    let stack = c.stack % 4;
     let out: Result<Result<Vec<DiffOp>, String>, String> = guard(|| match stack {
         0 => {
             let mut h = Compact::new(Capture::new(), &old[..], &new[..]);
@@ -140,6 +140,13 @@ pub fn check_case(c: &ScriptCase, obs: &mut Obs) -> Verdict {
             h.finish().unwrap();
             Ok(h.into_inner().into_ops())
         }
+        3 => {
+            // the reversed stacking: Replace feeds replace()/delete()/insert() calls into Compact
+            let mut h = Replace::new(Compact::new(Capture::new(), &old[..], &new[..]));
+            drive(&mut h, &c.script).unwrap();
+            h.finish().unwrap();
+            Ok(h.into_inner().into_inner().into_ops())
+        }
         _ => {
             let mut h = Compact::new(Replace::new(Capture::new()), &old[..], &new[..]);
             drive(&mut h, &c.script).unwrap();
@@ -150,7 +157,7 @@ pub fn check_case(c: &ScriptCase, obs: &mut Obs) -> Verdict {
             Ok(h.into_inner().into_inner().into_ops())
         }
     });
-    let name = ["Compact<Capture>", "Replace<Capture>", "Compact<Replace<Capture>>"][stack as usize];
+    let name = ["Compact<Capture>", "Replace<Capture>", "Compact<Replace<Capture>>", "Replace<Compact<Capture>>"][stack as usize];
     let ops = match out {
         Ok(Ok(o)) => o,
         Ok(Err(m)) => return Verdict::Fail(format!("{}: {}", name, m)),
@@ -201,12 +208,37 @@ fn strat(tier: Tier) -> BoxedStrategy<ScriptCase> {
         )),
         2 => seq_pair(l),
     ];
-    (pair, vec((prop_oneof![4 => Just(0u8), 2 => Just(1u8), 2 => Just(2u8), 1 => Just(3u8)], 1u8..4), 0..=24), 0u8..3)
-        .prop_map(|((old, new), choices, stack)| {
-            let script = build_script(&old, &new, &choices);
-            ScriptCase { old, new, script, stack }
-        })
-        .boxed()
+    let small = (pair, vec((prop_oneof![4 => Just(0u8), 2 => Just(1u8), 2 => Just(2u8), 1 => Just(3u8)], 1u8..4), 0..=24), 0u8..4).prop_map(|((old, new), choices, stack)| {
+        let script = build_script(&old, &new, &choices);
+        ScriptCase { old, new, script, stack }
+    });
+    // long runs: equal() calls of hundreds of items next to edits that repeat the run's items
+    let long = (1usize..3, 100usize..400, vec((any::<u16>(), 0u8..3, 1u8..4), 1..=4), vec((prop_oneof![6 => Just(0u8), 1 => Just(1u8), 1 => Just(2u8)], prop_oneof![1 => 1u8..4, 3 => Just(255u8)]), 0..=10), 0u8..4).prop_map(|(p, n, edits, choices, stack)| {
+        let old: Vec<u32> = (0..n).map(|i| (i % p) as u32).collect();
+        let mut new = old.clone();
+        for (at, kind, len) in edits {
+            let l = new.len();
+            if l == 0 {
+                break;
+            }
+            let q = pos(at, l - 1);
+            match kind {
+                0 => {
+                    for t in 0..len as usize {
+                        new.insert(q, ((q + t) % p) as u32);
+                    }
+                }
+                1 => {
+                    let k = (len as usize).min(l - q);
+                    new.drain(q..q + k);
+                }
+                _ => new.insert(q, 7),
+            }
+        }
+        let script = build_script(&old, &new, &choices);
+        ScriptCase { old, new, script, stack }
+    });
+    prop_oneof![60 => small, 1 => long].boxed()
 }
 
 /// DFS over all valid scripts (with run splitting) for one pair
@@ -251,7 +283,7 @@ fn enum_scripts(tier: Tier, f: &mut dyn FnMut(ScriptCase) -> bool) {
         for b in &seqs {
             let mut cur = vec![];
             let ok = all_scripts(a, b, 0, 0, &mut cur, &mut |s: &[SOp]| {
-                for stack in 0..3u8 {
+                for stack in 0..4u8 {
                     if !f(ScriptCase { old: a.clone(), new: b.clone(), script: s.to_vec(), stack }) {
                         return false;
                     }
@@ -269,7 +301,7 @@ impl Prop for C10 {
     type Case = ScriptCase;
     const ID: &'static str = "C10";
     fn rule() -> String {
-        "cases = (old, new, valid edit script as a history of equal/delete/insert hook calls with exact indices, adapter stack); scripts are built by an interpreter from a generated list of choices (so run splitting, insert-before-delete and non-minimal scripts all occur) and, in the enumeration stage, by a DFS over ALL valid scripts (with run splitting) of all pairs over {0,1} with lengths <= 3. Oracle: output is a valid script (walk + element equality), same number of deleted and of inserted items, nothing forwarded by Compact before finish, normal form through both adapters, exact carried indices through Replace alone, no panic. Non-trivial = script has >= 2 calls incl. a change and the adapter output differs from the input; distinct = distinct serialized case. The generator validates every script with the C01 stream validator before use (failure => exit 2).".into()
+        "cases = (old, new, valid edit script as a history of equal/delete/insert hook calls with exact indices, adapter stack in {Compact, Replace, Compact<Replace>, Replace<Compact>}); 1 case in ~60 uses periodic sequences of 100-400 items so that single equal() calls span hundreds of items next to edits that repeat the run's items; scripts are built by an interpreter from a generated list of choices (so run splitting, insert-before-delete and non-minimal scripts all occur) and, in the enumeration stage, by a DFS over ALL valid scripts (with run splitting) of all pairs over {0,1} with lengths <= 3. Oracle: output is a valid script (walk + element equality), same number of deleted and of inserted items, nothing forwarded by Compact before finish, normal form through both adapters, exact carried indices through Replace alone, no panic. Non-trivial = script has >= 2 calls incl. a change and the adapter output differs from the input; distinct = distinct serialized case. The generator validates every script with the C01 stream validator before use (failure => exit 2).".into()
     }
     fn assumptions() -> Vec<String> {
         vec!["scripts are driven through DiffOp::apply_to_hook + finish as in the library's own Compact::finish".into()]
@@ -279,7 +311,7 @@ impl Prop for C10 {
             Stage {
                 name: "enum-all-scripts",
                 kind: StageKind::Enumerate {
-                    scope: "all valid scripts (equal/delete/insert runs of every length, every interleaving) of all (old,new) over {0,1} with lengths <= 3 x 3 adapter stacks".into(),
+                    scope: "all valid scripts (equal/delete/insert runs of every length, every interleaving) of all (old,new) over {0,1} with lengths <= 3 x 4 adapter stacks (incl. the reversed stacking Replace<Compact<_>>)".into(),
                     exhaustive: true,
                     gen: enum_scripts,
                 },
